@@ -58,6 +58,7 @@ type shimBConn struct {
 	recv   []shimMsg
 	notify chan struct{} // replaced on every change
 	closed chan struct{} // closed when the read loop ends (peer closed / error)
+	pushed int64         // push-only mode: messages written so far
 	cerr   string
 }
 
@@ -111,6 +112,10 @@ func (b *shimBackend) serve(w http.ResponseWriter, r *http.Request) {
 		}
 	}
 	close(c.ready)
+	if ms, _ := strconv.Atoi(r.Header.Get("X-Verif-Noread")); ms > 0 {
+		c.pushOnly(time.Duration(ms) * time.Millisecond)
+		return
+	}
 	for {
 		t, d, err := ws.ReadMessage()
 		c.mu.Lock()
@@ -126,6 +131,46 @@ func (b *shimBackend) serve(w http.ResponseWriter, r *http.Request) {
 		c.notify = make(chan struct{})
 		c.mu.Unlock()
 		close(old)
+	}
+}
+
+// pushOnly is the busy / push-only backend: it never reads from the
+// websocket (a close frame from the client stays unread, no close handshake
+// is ever answered) and writes a text message every period. It learns that
+// the peer tore the connection down only from its writes failing, which is
+// when closed is signalled.
+func (c *shimBConn) pushOnly(period time.Duration) {
+	start := time.Now()
+	for i := 0; ; i++ {
+		c.wmu.Lock()
+		c.ws.SetWriteDeadline(time.Now().Add(5 * time.Second))
+		err := c.ws.WriteMessage(websocket.TextMessage, []byte(fmt.Sprintf("push-%d", i)))
+		c.wmu.Unlock()
+		if err != nil {
+			if ne, ok := err.(net.Error); ok && ne.Timeout() {
+				// the peer is still there but not draining: not a close
+				c.mu.Lock()
+				c.cerr = "harness: push-only backend gave up on a stalled peer"
+				c.mu.Unlock()
+				c.ws.Close()
+				return
+			}
+			c.mu.Lock()
+			c.cerr = err.Error()
+			c.mu.Unlock()
+			close(c.closed)
+			c.ws.Close()
+			return
+		}
+		atomic.AddInt64(&c.pushed, 1)
+		if time.Since(start) > 90*time.Second {
+			c.mu.Lock()
+			c.cerr = "harness: push-only backend retired after 90s"
+			c.mu.Unlock()
+			c.ws.Close() // without signalling closed: the peer never closed
+			return
+		}
+		time.Sleep(period)
 	}
 }
 
